@@ -486,6 +486,8 @@ theorem sameList_step (cfg : Cfg) (gas : Nat) (hL : SameList cfg gas) : SameList
   intro fw st ld nm acc r h
   simp only [readList] at h
   split at h
+  · cases h; exact Same.refl fw
+  split at h
   · cases h
   · rename_i il hil
     have hs := itemLines_same cfg fw nm il hil
@@ -503,10 +505,8 @@ theorem sameList_step (cfg : Cfg) (gas : Nat) (hL : SameList cfg gas) : SameList
       subst hfw
       split at h
       · split at h
-        · cases h; exact hs.trans (same_pos _ _)
-        · split at h
-          · cases h; exact hs
-          · exact hs.trans (hL _ _ _ _ _ _ h)
+        · cases h; exact hs
+        · exact hs.trans (hL _ _ _ _ _ _ h)
       · split at h
         · cases h; exact hs
         · exact hs.trans (hL _ _ _ _ _ _ h)
@@ -611,6 +611,9 @@ def UpLoop (cfg : Cfg) (pre : List Line) (gas : Nat) : Prop :=
 theorem upList_step (cfg : Cfg) (pre : List Line) (gas : Nat) (hL : UpList cfg pre gas) : UpList cfg pre (gas + 1) := by
   intro b st ld nm acc hs hl
   simp only [readList, itemLines_up cfg pre b nm hs]
+  by_cases hom : otherMarkerType ld nm = true
+  · simp only [hom, ↓reduceIte]; rfl
+  simp only [hom, Bool.false_eq_true, ↓reduceIte]
   cases hil : itemLines cfg b nm with
   | err e => rfl
   | ok il =>
@@ -625,11 +628,9 @@ theorem upList_step (cfg : Cfg) (pre : List Line) (gas : Nat) (hL : UpList cfg p
       cases ld with
       | some d =>
         simp only
-        split
-        · rfl
-        · cases next with
-          | none => rfl
-          | some m => exact hL fw' _ _ _ _ hs' hl'
+        cases next with
+        | none => rfl
+        | some m => exact hL fw' _ _ _ _ hs' hl'
       | none =>
         simp only
         cases next with
@@ -645,11 +646,9 @@ theorem upList_step (cfg : Cfg) (pre : List Line) (gas : Nat) (hL : UpList cfg p
         cases ld with
         | some d =>
           simp only
-          split
-          · rfl
-          · cases next with
-            | none => rfl
-            | some m => exact hL fw' _ _ _ _ hs' hl'
+          cases next with
+          | none => rfl
+          | some m => exact hL fw' _ _ _ _ hs' hl'
         | none =>
           simp only
           cases next with
@@ -1178,6 +1177,14 @@ theorem shLoop_step (cfg : Cfg) (k gas : Nat) (hY : ShTry cfg k gas) (hP : ShLoo
 theorem shList_step (cfg : Cfg) (k gas : Nat) (hT : ShTok cfg k gas) (hL : ShList cfg k gas) : ShList cfg k (gas + 1) := by
   intro b st ld nm acc
   simp only [readList, itemLines_sh cfg k b nm]
+  by_cases hom : otherMarkerType ld nm = true
+  · simp only [hom, ↓reduceIte, rmap_ok, shL]
+    cases acc with
+    | nil => rfl
+    | cons x xs =>
+      cases x
+      simp only [shiftItems, shiftItem, shiftEntries_length, shiftItems_reverse]
+  simp only [hom, Bool.false_eq_true, ↓reduceIte]
   cases itemLines cfg b nm with
   | err e => rfl
   | ok il =>
@@ -1190,16 +1197,9 @@ theorem shList_step (cfg : Cfg) (k gas : Nat) (hT : ShTok cfg k gas) (hL : ShLis
       cases ld with
       | some d =>
         simp only
-        split
-        · simp only [rmap_ok, shL]
-          cases acc with
-          | nil => rfl
-          | cons x xs =>
-            cases x
-            simp only [shiftItems, shiftItem, shiftEntries_length, shiftItems_reverse]; rfl
-        · cases next with
-          | none => simp only [rmap_ok, shL, shiftItems_reverse, shiftItems, shiftItem, shiftEntries]
-          | some m => simp only [hcons]; exact hL fw' _ _ _ _
+        cases next with
+        | none => simp only [rmap_ok, shL, shiftItems_reverse, shiftItems, shiftItem, shiftEntries]
+        | some m => simp only [hcons]; exact hL fw' _ _ _ _
       | none =>
         simp only
         cases next with
@@ -1217,16 +1217,9 @@ theorem shList_step (cfg : Cfg) (k gas : Nat) (hT : ShTok cfg k gas) (hL : ShLis
         cases ld with
         | some d =>
           simp only
-          split
-          · simp only [rmap_ok, shL]
-            cases acc with
-            | nil => rfl
-            | cons x xs =>
-              cases x
-              simp only [shiftItems, shiftItem, shiftEntries_length, shiftItems_reverse]; rfl
-          · cases next with
-            | none => simp only [rmap_ok, shL, shiftItems_reverse, shiftItems, shiftItem, shiftEntries_length]
-            | some m => simp only [hcons]; exact hL fw' _ _ _ _
+          cases next with
+          | none => simp only [rmap_ok, shL, shiftItems_reverse, shiftItems, shiftItem, shiftEntries_length]
+          | some m => simp only [hcons]; exact hL fw' _ _ _ _
         | none =>
           simp only
           cases next with
@@ -1387,6 +1380,9 @@ theorem monoLoop_step (cfg : Cfg) (g : Nat) (hY : MonoTry cfg g) (hP : MonoLoop 
 theorem monoList_step (cfg : Cfg) (g : Nat) (hT : MonoTok cfg g) (hL : MonoList cfg g) : MonoList cfg (g + 1) := by
   intro fw st ld nm acc r h
   simp only [readList] at h ⊢
+  by_cases hom : otherMarkerType ld nm = true
+  · simpa only [hom, ↓reduceIte] using h
+  simp only [hom, Bool.false_eq_true, ↓reduceIte] at h ⊢
   cases hil : itemLines cfg fw nm with
   | err e => simp [hil] at h
   | ok il =>
@@ -1397,13 +1393,9 @@ theorem monoList_step (cfg : Cfg) (g : Nat) (hT : MonoTok cfg g) (hL : MonoList 
       cases ld with
       | some d =>
         simp only at h ⊢
-        split
-        · rename_i hc; simpa only [hc, if_true] using h
-        · rename_i hc
-          simp only [hc] at h
-          cases next with
-          | none => exact h
-          | some m => exact hL _ _ _ _ _ _ h
+        cases next with
+        | none => exact h
+        | some m => exact hL _ _ _ _ _ _ h
       | none =>
         simp only at h ⊢
         cases next with
@@ -1418,13 +1410,9 @@ theorem monoList_step (cfg : Cfg) (g : Nat) (hT : MonoTok cfg g) (hL : MonoList 
         cases ld with
         | some d =>
           simp only at h ⊢
-          split
-          · rename_i hc; simpa only [hc, if_true] using h
-          · rename_i hc
-            simp only [hc] at h
-            cases next with
-            | none => exact h
-            | some m => exact hL _ _ _ _ _ _ h
+          cases next with
+          | none => exact h
+          | some m => exact hL _ _ _ _ _ _ h
         | none =>
           simp only at h ⊢
           cases next with
@@ -1930,6 +1918,8 @@ theorem sxList_step (cfg : Cfg) (g : Nat) (hT : SxTok cfg g) (hL : SxList cfg g)
   intro fw st ld nm acc r hst h
   simp only [readList] at h
   split at h
+  · cases h; exact hst
+  split at h
   · cases h
   · rename_i il hil
     split at h
@@ -1947,9 +1937,7 @@ theorem sxList_step (cfg : Cfg) (g : Nat) (hT : SxTok cfg g) (hL : SxList cfg g)
       split at h
       · split at h
         · cases h; exact hst'
-        · split at h
-          · cases h; exact hst'
-          · exact hL _ _ _ _ _ _ hst' h
+        · exact hL _ _ _ _ _ _ hst' h
       · split at h
         · cases h; exact hst'
         · exact hL _ _ _ _ _ _ hst' h
